@@ -523,7 +523,12 @@ func CheckViewComplete(w *World, hv *HeldView) []V {
 		return []V{{"C10", "c10.truth-error", err.Error()}}
 	}
 	var got []string
+	var out []V
 	for _, l := range strings.Split(hv.Recorded, "\n") {
+		if strings.HasPrefix(l, "LOOKUP ") {
+			out = append(out, V{"C10", "c10.view-lookup-disagrees", fmt.Sprintf("view %s opened after captures %v were reported processed: %s", hv.Name, files, strings.TrimPrefix(l, "LOOKUP "))})
+			continue
+		}
 		if l == "" || strings.HasPrefix(l, "search ") || strings.HasPrefix(l, "stream0=") {
 			continue
 		}
@@ -532,9 +537,9 @@ func CheckViewComplete(w *World, hv *HeldView) []V {
 	}
 	sort.Strings(got)
 	if strings.Join(got, "\n") != strings.Join(want, "\n") {
-		return []V{{"C10", "c10.view-incomplete", fmt.Sprintf("view %s opened after captures %v were reported processed shows\n%s\nwant (one-shot import of these captures)\n%s", hv.Name, files, strings.Join(got, "\n"), strings.Join(want, "\n"))}}
+		out = append(out, V{"C10", "c10.view-incomplete", fmt.Sprintf("view %s opened after captures %v were reported processed shows\n%s\nwant (one-shot import of these captures)\n%s", hv.Name, files, strings.Join(got, "\n"), strings.Join(want, "\n"))})
 	}
-	return nil
+	return out
 }
 
 // ---- C13: index files live exactly as long as they are needed ----
